@@ -471,6 +471,8 @@ def sequences(ctx, tr, maxlen):
             ctx.count('call_sequences')
             for si, op in enumerate(seq):
                 r0 = w.resets
+                n0 = len(w.log)
+                was_aborted = aborted
                 if op == 'create':
                     # an iterator that is created now and consumed later: its run (reset, counter, result) happens when it is consumed
                     pending.append(w.imatch())
@@ -504,6 +506,13 @@ def sequences(ctx, tr, maxlen):
                     ok = True
                 else:
                     ok = w.is_aborted() is aborted
+                if ok and was_aborted and op in ('match', 'imatch', 'consume', 'abandon'):
+                    # a run started on an aborted object looks at nothing: no file or directory reaches a hook
+                    touched = [e for e in w.log[n0:] if e[0] != 'reset']
+                    if touched:
+                        ctx.disagree('a run on an aborted object still validates entries',
+                                     {'tree': tr.spec, 'sequence': list(seq), 'failing_step': si, 'hook_events': touched[:6]})
+                        break
                 if not ok:
                     ctx.disagree(f'call history disagrees with the sequential model at `{op}`',
                                  {'tree': tr.spec, 'sequence': list(seq), 'failing_step': si, 'model_aborted': aborted})
